@@ -1,7 +1,7 @@
 """Shared harness for the simulator properties (C01-C06, C15): generator of single-product networks, adapter to
 stockpyl's simulator, Coq-model evaluation (Sim/Model.v through Sim/Obs.v), comparison, and the property monitors
 (oracles) evaluated on the IMPLEMENTATION's own state variables."""
-import copy, itertools, json
+import copy, itertools, json, os
 from fractions import Fraction
 from vlib import *
 
@@ -42,7 +42,7 @@ def gen_topology(rng, nmax):
     return kind, ids, edges
 
 
-def gen_case(rng, nmax=5, tmax=12, bias=None, policies=None, disruptions=True, olt_max=2, slt_max=3, ebs=False):
+def gen_case(rng, nmax=5, tmax=12, bias=None, policies=None, disruptions=True, olt_max=2, slt_max=3, ebs=False, levels=0.0):
     kind, ids, edges = gen_topology(rng, nmax)
     T = rng.randint(max(4, tmax // 2), tmax)
     succs = {i: [b for a, b in edges if a == i] for i in ids}
@@ -85,7 +85,84 @@ def gen_case(rng, nmax=5, tmax=12, bias=None, policies=None, disruptions=True, o
             rev=Fraction(rng.randint(0, 8), 4) if rng.random() < 0.3 else Fraction(0),
             demand=dl, dis=dis,
             init_orders=rng.choice([0, 0, 1, 3]), init_ships=rng.choice([0, 0, 2, 4]))
-    return dict(kind=kind, ids=ids, edges=[list(e) for e in edges], T=T, nodes=nodes)
+    case = dict(kind=kind, ids=ids, edges=[list(e) for e in edges], T=T, nodes=nodes)
+    if levels and rng.random() < levels:
+        gen_levels(rng, case)
+    return case
+
+
+# attributes that SupplyChainNode.get_attribute() resolves per product: a (node, product) entry of a dict at the node, else the node's own
+# (singleton) value unless that is the default None, else the value of the SupplyChainProduct handled by the node
+LEVEL_ATTRS = {'slt': 'shipment_lead_time', 'olt': 'order_lead_time', 'h': 'local_holding_cost', 'p': 'stockout_cost', 'ith': 'in_transit_holding_cost',
+               'rev': 'revenue', 'cap': 'order_capacity', 'init_il': 'initial_inventory_level', 'init_orders': 'initial_orders',
+               'init_ships': 'initial_shipments', 'pol': 'inventory_policy', 'demand': 'demand_source',
+               'hf': 'local_holding_cost_function', 'pf': 'stockout_cost_function'}
+INCLUDE_DEFECT_CLASSES = bool(os.environ.get('VERIF_SIM_DEFECT_CLASSES'))      # generate also the input classes on which the unchanged library fails (see gen_levels)
+
+
+def gen_levels(rng, case):
+    """WHERE the attributes of a node are specified (plumbing only: the configuration the attributes resolve to is unchanged, so the
+    Stage-1 model and the monitors see the same case).  A node with 'prod' handles an explicit SupplyChainProduct with that index instead
+    of its dummy product; 'lvl' {attr: 'product' | 'dict'} moves an attribute from the node (singleton) to the product or to a
+    product-keyed dict at the node; 'decoy': attributes that stay at the node (and are not None) get a different value at the product,
+    which the documented resolution order ignores; 'bom': predecessors to which the product is linked by an explicit bill of materials
+    (number 1) - the others (and the external supplier) are linked by the network structure alone (network BOM number 1);
+    'ext': a node with predecessors that is also supplied by the external supplier (supply_type 'U')."""
+    ids = case['ids']; edges = case['edges']
+    pids = rng.sample(range(0, 400), len(ids))
+    all_nodes = rng.random() < 0.5
+    blocked = set()
+    if not INCLUDE_DEFECT_CLASSES:
+        # DEFECT of the unchanged library (reported, input class excluded here): NodeStateVars.on_hand / .backorders read
+        # `node._dummy_product.index`, which is None once an explicit product has been added -> AttributeError as soon as an echelon
+        # base-stock policy looks at a node (itself or a descendant) that handles an explicit product.
+        succs = {i: [b for a, b in edges if a == i] for i in ids}
+        stack = [i for i in ids if case['nodes'][i]['pol'][0] == 'EBS']
+        while stack:
+            i = stack.pop()
+            if i not in blocked: blocked.add(i); stack += succs[i]
+    for i, pk in zip(ids, pids):
+        v = case['nodes'][i]
+        if i in blocked or not (all_nodes or rng.random() < 0.5): continue
+        v['prod'] = pk
+        style = rng.choice(['product', 'dict', 'mixed', 'mixed', 'lead-times'])
+        lvl = {}
+        for a in LEVEL_ATTRS:
+            if a in ('hf', 'pf') and not v.get(a): continue
+            if style == 'lead-times': w = rng.choice(['product', 'product', 'dict']) if a in ('slt', 'olt') else 'node'
+            elif style == 'mixed': w = rng.choice(['node', 'product', 'dict'])
+            else: w = style if rng.random() < 0.85 else 'node'
+            if w != 'node': lvl[a] = w
+        if rng.random() < 0.5 and lvl.get('slt') != lvl.get('olt'):
+            lvl['olt'] = lvl.get('slt', 'node')
+            if lvl['olt'] == 'node': del lvl['olt']
+        preds = [a for a, b in edges if b == i]
+        if preds and rng.random() < 0.25:
+            v['ext'] = True
+        if not INCLUDE_DEFECT_CLASSES:
+            # DEFECTS of the unchanged library (reported; exactly these input classes are excluded):
+            # (1) lead times given per (node, product) as a dict: sim.initialize() computes `np.max([n.order_lead_time or 0 ...])` -> TypeError
+            for a in ('slt', 'olt'):
+                if lvl.get(a) == 'dict': lvl[a] = 'product'
+            # (2) sim._initialize_state_vars fills the initial shipment pipeline over `range(n.shipment_lead_time or 0)` (the NODE's attribute,
+            # None when the lead times are given on the product): initial shipments / initial orders to the external supplier are then not put
+            # into the pipeline (or into the wrong slots) while on_order counts them
+            olt_slots = v['olt'] > 0 and v['init_orders'] > 0 and (not preds or bool(v.get('ext')))
+            if (lvl.get('slt') == 'product' and v['slt'] > 0 and (v['init_ships'] > 0 or olt_slots)) or (lvl.get('olt') == 'product' and olt_slots):
+                lvl.pop('slt', None); lvl.pop('olt', None)
+            # (3) ... and resolves the initial orders of a successor with the SUPPLIER's product index (`s.get_attribute('initial_orders', prod_ind)`):
+            # initial orders given on the successor's product / per (successor, product) never reach the supplier's order pipeline; the supplier's
+            # pipeline is filled with the `initial_orders` attribute of the supplier's OWN product instead (even when the successor's are 0)
+            if preds and v['olt'] > 0: lvl.pop('init_orders', None)
+        v['lvl'] = lvl
+        v['decoy'] = rng.random() < 0.5
+        if preds and rng.random() < 0.6:
+            v['bom'] = [p for p in preds if rng.random() < 0.6]
+    for i in ids:        # an explicit bill of materials needs an explicit product at the supplier as well
+        v = case['nodes'][i]
+        if v.get('bom'):
+            v['bom'] = [p for p in v['bom'] if 'prod' in case['nodes'][p]]
+    return case
 
 
 def case_from_json(c):
@@ -119,37 +196,75 @@ def has_cost_fn(case):
 
 def build_impl(case):
     from stockpyl.supply_chain_network import network_from_edges
+    from stockpyl.supply_chain_product import SupplyChainProduct
     from stockpyl.policy import Policy
     from stockpyl.demand_source import DemandSource
     from stockpyl.disruption_process import DisruptionProcess
     ids = case['ids']; nd = case['nodes']
-    def pol(p):
-        if p[0] == 'BS': return Policy(type='BS', base_stock_level=p[1])
-        if p[0] == 'sS': return Policy(type='sS', reorder_point=p[1], order_up_to_level=p[2])
-        if p[0] == 'rQ': return Policy(type='rQ', reorder_point=p[1], order_quantity=p[2])
-        if p[0] == 'FQ': return Policy(type='FQ', order_quantity=p[1])
-        if p[0] == 'EBS': return Policy(type='EBS', base_stock_level=p[1])
+    def pol(p, **kw):
+        if p[0] == 'BS': return Policy(type='BS', base_stock_level=p[1], **kw)
+        if p[0] == 'sS': return Policy(type='sS', reorder_point=p[1], order_up_to_level=p[2], **kw)
+        if p[0] == 'rQ': return Policy(type='rQ', reorder_point=p[1], order_quantity=p[2], **kw)
+        if p[0] == 'FQ': return Policy(type='FQ', order_quantity=p[1], **kw)
+        if p[0] == 'EBS': return Policy(type='EBS', base_stock_level=p[1], **kw)
         raise ValueError(p)
-    kw = dict(
-        local_holding_cost={i: float(nd[i]['h']) for i in ids},
-        stockout_cost={i: float(nd[i]['p']) for i in ids},
-        in_transit_holding_cost={i: (None if nd[i]['ith'] is None else float(nd[i]['ith'])) for i in ids},
-        revenue={i: float(nd[i]['rev']) for i in ids},
-        shipment_lead_time={i: nd[i]['slt'] for i in ids},
-        order_lead_time={i: nd[i]['olt'] for i in ids},
-        inventory_policy={i: pol(nd[i]['pol']) for i in ids},
-        order_capacity={i: nd[i]['cap'] for i in ids},
-        initial_inventory_level={i: nd[i]['init_il'] for i in ids},
-        initial_orders={i: nd[i]['init_orders'] for i in ids},
-        initial_shipments={i: nd[i]['init_ships'] for i in ids},
-        demand_source={i: (DemandSource(type='D', demand_list=list(nd[i]['demand'])) if nd[i]['demand'] is not None else None) for i in ids},
-        disruption_process={i: (DisruptionProcess(random_process_type='E', disruption_type=nd[i]['dis'][0],
-                                                  disruption_state_list=list(nd[i]['dis'][1])) if nd[i]['dis'] else None) for i in ids})
+    def val(i, a, **kw):
+        """the library value of attribute a (key of LEVEL_ATTRS) of node i"""
+        v = nd[i].get(a)
+        if a in ('h', 'p', 'rev'): return float(v)
+        if a == 'ith': return None if v is None else float(v)
+        if a == 'pol': return pol(v, **kw)
+        if a == 'demand': return DemandSource(type='D', demand_list=list(v)) if v is not None else None
+        if a == 'hf': return cost_fn(v) if v else None
+        if a == 'pf': return cost_fn(v, stockout=True) if v else None
+        return v
+    def at_node(i, a):
+        return nd[i].get('lvl', {}).get(a, 'node') == 'node'
+    kw = {name: {i: (val(i, a) if at_node(i, a) else None) for i in ids} for a, name in LEVEL_ATTRS.items() if a not in ('hf', 'pf')}
+    kw['disruption_process'] = {i: (DisruptionProcess(random_process_type='E', disruption_type=nd[i]['dis'][0],
+                                                      disruption_state_list=list(nd[i]['dis'][1])) if nd[i]['dis'] else None) for i in ids}
     net = network_from_edges(edges=[tuple(e) for e in case['edges']], node_order_in_lists=list(ids), **kw)
     for n in net.nodes:
-        if nd[n.index].get('hf'): n.local_holding_cost_function = cost_fn(nd[n.index]['hf'])
-        if nd[n.index].get('pf'): n.stockout_cost_function = cost_fn(nd[n.index]['pf'], stockout=True)
+        if nd[n.index].get('hf') and at_node(n.index, 'hf'): n.local_holding_cost_function = cost_fn(nd[n.index]['hf'])
+        if nd[n.index].get('pf') and at_node(n.index, 'pf'): n.stockout_cost_function = cost_fn(nd[n.index]['pf'], stockout=True)
+    # explicit products; attributes given on the product or per (node, product)
+    P = {}
+    for n in net.nodes:
+        v = nd[n.index]
+        if v.get('prod') is None: continue
+        lvl = v.get('lvl', {})
+        pk = v['prod']; prod = SupplyChainProduct(index=pk); P[n.index] = prod
+        for a, name in LEVEL_ATTRS.items():
+            w = lvl.get(a, 'node')
+            if w == 'node':
+                if v.get('decoy') and a not in ('pol', 'demand', 'hf', 'pf') and v.get(a) is not None:
+                    # the node's own value is set: a (different) value on the product must be ignored
+                    x = val(n.index, a)
+                    setattr(prod, name, (x + 1 + (n.index % 3)) if a in ('slt', 'olt') else x + 3)
+                continue
+            if a == 'demand' and v['demand'] is None: continue       # (the node keeps its empty demand source)
+            kwp = dict(node=n, product=prod) if a == 'pol' else {}
+            x = val(n.index, a, **kwp)
+            if w == 'product':
+                setattr(n, name, None); setattr(prod, name, x)
+            else:
+                setattr(n, name, {pk: x})
+                if v.get('decoy') and a not in ('pol', 'demand', 'hf', 'pf') and x is not None:
+                    setattr(prod, name, (x + 1 + (n.index % 3)) if a in ('slt', 'olt') else x + 3)
+    for n in net.nodes:
+        if nd[n.index].get('ext'): n.supply_type = 'U'       # before the product is added: adding it rebuilds the network bill of materials
+    for n in net.nodes:
+        for p in nd[n.index].get('bom') or []:
+            P[n.index].set_bill_of_materials(raw_material=nd[p]['prod'], num_needed=1)
+    for n in net.nodes:
+        if n.index in P: n.add_product(P[n.index])
     return net
+
+
+def prod_key(n):
+    """index of the single product handled by node n (its dummy product unless an explicit product was added)"""
+    assert len(n.product_indices) == 1, (n.index, n.product_indices)
+    return n.product_indices[0]
 
 
 def extract_records(net, T):
@@ -159,7 +274,7 @@ def extract_records(net, T):
         R = {}
         for n in net.nodes:
             sv = n.state_vars[t]
-            prod = n._dummy_product.index
+            prod = prod_key(n)
             r = dict(IL=F(sv.inventory_level[prod]), OQFG=F(sv.order_quantity_fg[prod]), PFG=F(sv.pending_finished_goods[prod]),
                      DMFS=F(sv.demand_met_from_stock[prod]), DC=F(sv.demand_cumul[prod]), DMC=F(sv.demand_met_from_stock_cumul[prod]),
                      FR=F(sv.fill_rate[prod]), HC=F(sv.holding_cost_incurred), SC=F(sv.stockout_cost_incurred),
@@ -170,7 +285,7 @@ def extract_records(net, T):
                                     BO=F(sv.backorders_by_successor[c][prod]), ODI=F(sv.outbound_disrupted_items[c][prod]),
                                     OP=[F(x) for x in sv.inbound_order_pipeline[c][prod]])
             for p in n.predecessor_indices(include_external=True):
-                rm = net.nodes_by_index[p]._dummy_product.index if p is not None else n._external_supplier_dummy_product.index
+                rm = prod_key(net.nodes_by_index[p]) if p is not None else n._external_supplier_dummy_product.index
                 r['supp'][p] = dict(IS=F(sv.inbound_shipment[p][rm]), IDI=F(sv.inbound_disrupted_items[p][rm]),
                                     RM=F(sv.raw_material_inventory[rm]), OO=F(sv.on_order_by_predecessor[p][rm]),
                                     OQ=F(sv.order_quantity[p][rm]), SP=[F(x) for x in sv.inbound_shipment_pipeline[p][rm]])
